@@ -413,7 +413,7 @@ func vmCheck(k *h.Case, rp *spec.Program, out string, o vmCheckOpts, tag string)
 		}
 		in := ref.New(s.Body, rp.AutoVars)
 		in.Render = o.Render
-		vm := &asm.VM{F: f, Sec: sec, Hits: map[int]bool{}}
+		vm := &asm.VM{F: f, Sec: sec, Hits: map[int]bool{}, UserTargets: userTargetsOf(rp)}
 		paths := map[uint64]bool{}
 		// at least NStates states; keep going (up to 6x) while new instructions are still being reached
 		lastGain := 0
@@ -506,3 +506,20 @@ func debugReject(src, err string) {
 }
 
 var debugOnce sync.Once
+
+// userTargetsOf lists the labels the author wrote as jump targets (goto,
+// goto_if_set, goto_if_unset commands): they may legitimately be external.
+func userTargetsOf(p *spec.Program) map[string]bool {
+	m := map[string]bool{}
+	for _, s := range scriptsOf(p) {
+		allCmds(s.Body, func(c *spec.Cmd) {
+			switch {
+			case c.Name == "goto" && len(c.Args) == 1:
+				m[strings.Join(c.Args[0].Toks, " ")] = true
+			case (c.Name == "goto_if_set" || c.Name == "goto_if_unset") && len(c.Args) == 2:
+				m[strings.Join(c.Args[1].Toks, " ")] = true
+			}
+		})
+	}
+	return m
+}
